@@ -1067,3 +1067,899 @@ pub fn debug_timing() {
         println!("{}: world new+drop {:.0} us, compare_trees {:.0} us, lookup step {:.0} us", cfg.label(), a * 1e6, b * 1e6, c * 1e6);
     }
 }
+
+// ------------------------------------------------------------------------------------------------
+// C08: inode validity == client lookup references
+
+/// Identity of a host file: device + file handle bytes (inode number and generation), so that a
+/// recycled inode number is a different file.
+pub fn host_identity(p: &Path) -> Option<(u64, Vec<u8>)> {
+    let md = std::fs::symlink_metadata(p).ok()?;
+    let c = cpath(p);
+    #[repr(C)]
+    struct Fh {
+        bytes: u32,
+        typ: i32,
+        data: [u8; 128],
+    }
+    let mut fh = Fh { bytes: 128, typ: 0, data: [0; 128] };
+    let mut mnt = 0i32;
+    let rc = unsafe { libc::syscall(libc::SYS_name_to_handle_at, libc::AT_FDCWD, c.as_ptr(), &mut fh as *mut Fh, &mut mnt as *mut i32, 0) };
+    if rc == 0 {
+        let mut v = fh.typ.to_le_bytes().to_vec();
+        v.extend_from_slice(&fh.data[..fh.bytes as usize]);
+        Some((md.dev(), v))
+    } else {
+        Some((md.dev(), md.ino().to_le_bytes().to_vec()))
+    }
+}
+
+#[derive(Clone, Debug)]
+pub struct NodeInfo {
+    pub count: u64,
+    pub ident: (u64, Vec<u8>),
+    pub host_ino: u64,
+    pub seen_as: String,
+}
+
+#[derive(Clone, Copy, Debug, PartialEq, Eq, Hash)]
+pub enum ROp {
+    Lookup(D, usize),
+    Create(usize),
+    Mkdir(usize),
+    Mknod(usize),
+    Symlink(usize),
+    Link(usize, usize),
+    ReaddirPlus(usize),
+    Readdir,
+    /// forget the k-th known inode number by (1 | its count | count+1 | u64::MAX)
+    Forget(usize, u8),
+    BatchForget,
+    Rename(usize, usize),
+    Unlink(usize),
+    Rmdir(usize),
+    Getattr(usize),
+}
+
+pub fn c08_alphabet(rich: bool) -> Vec<ROp> {
+    let mut v = vec![
+        ROp::Lookup(D::Root, 0), ROp::Lookup(D::Root, 1), ROp::Lookup(D::Root, 5), ROp::Lookup(D::Root, 4), ROp::Lookup(D::Dd, 0),
+        ROp::Create(1), ROp::Create(0), ROp::Create(4), ROp::Create(2), ROp::Mkdir(1), ROp::Mknod(1), ROp::Symlink(1), ROp::Link(0, 1),
+        ROp::ReaddirPlus(0), ROp::ReaddirPlus(1), ROp::ReaddirPlus(2), ROp::Readdir,
+        ROp::BatchForget, ROp::Rename(0, 1), ROp::Rename(1, 0), ROp::Unlink(0), ROp::Unlink(1), ROp::Unlink(5), ROp::Rmdir(1),
+    ];
+    for slot in 0..if rich { 3 } else { 2 } {
+        for kind in 0..4u8 {
+            v.push(ROp::Forget(slot, kind));
+        }
+    }
+    if rich {
+        v.push(ROp::Lookup(D::Root, 2));
+        v.push(ROp::Lookup(D::Root, 3));
+        v.push(ROp::Getattr(0));
+    }
+    v
+}
+
+pub struct RefWorld {
+    pub w: PtWorld,
+    pub nodes: BTreeMap<u64, NodeInfo>,
+    pub order: Vec<u64>,
+    pub problems: Vec<(String, String)>,
+    pub base_tables: (usize, usize, usize),
+    pub base_fds: usize,
+    pub recycled: bool,
+}
+
+impl RefWorld {
+    pub fn new(cfg: &PtCfg, cl: &mut Client) -> RefWorld {
+        let w = PtWorld::new(cfg, cl, true);
+        let base_tables = w.table_sizes();
+        let base_fds = fd_count();
+        RefWorld { w, nodes: BTreeMap::new(), order: Vec::new(), problems: Vec::new(), base_tables, base_fds, recycled: false }
+    }
+
+    fn bad(&mut self, class: &str, msg: String) {
+        let tag = if self.w.cfg.use_host_ino && self.w.cfg.inode_file_handles { "@use_host_ino+file_handles" } else { "" };
+        self.problems.push((format!("{}{}", class, tag), msg));
+    }
+
+    /// Is a file with this identity still linked somewhere in the export?
+    fn still_linked(&self, ident: &(u64, Vec<u8>)) -> bool {
+        fn walk(dir: &Path, ident: &(u64, Vec<u8>)) -> bool {
+            if let Ok(rd) = std::fs::read_dir(dir) {
+                for e in rd.flatten() {
+                    let p = e.path();
+                    if host_identity(&p).as_ref() == Some(ident) {
+                        return true;
+                    }
+                    if e.file_type().map(|t| t.is_dir()).unwrap_or(false) && walk(&p, ident) {
+                        return true;
+                    }
+                }
+            }
+            false
+        }
+        walk(&self.w.exp, ident)
+    }
+
+    fn exp_path(&self, d: D, n: usize) -> PathBuf {
+        self.w.exp.join(format!("{}{}", d.prefix(), NAMES[n]))
+    }
+
+    /// An entry was delivered to the client for the object at `path`.
+    pub fn delivered(&mut self, what: &str, e: &EntryR, path: &Path) {
+        if e.nodeid == 0 {
+            return;
+        }
+        let ident = match host_identity(path) {
+            Some(i) => i,
+            None => {
+                self.bad(&format!("{}/phantom-entry", what), format!("entry {:#x} returned for {:?} which does not exist", e.nodeid, path));
+                return;
+            }
+        };
+        let host_ino = std::fs::symlink_metadata(path).map(|m| m.ino()).unwrap_or(0);
+        // a host file has one inode number ...
+        let other = self.nodes.iter().find(|(n, i)| **n != e.nodeid && i.ident == ident).map(|(n, i)| (*n, i.count));
+        if let Some((on, oc)) = other {
+            let class = if oc > 0 { "two-numbers-for-one-file" } else { "number-changed-after-forget" };
+            self.bad(&format!("{}/{}", what, class), format!("{:?} was known as inode {:#x} (count {}), now returned as {:#x}", path, on, oc, e.nodeid));
+        }
+        // ... and an inode number denotes one host file
+        if let Some(cur) = self.nodes.get(&e.nodeid) {
+            if cur.ident != ident && cur.count > 0 {
+                let s = cur.seen_as.clone();
+                if self.w.cfg.use_host_ino && self.w.cfg.inode_file_handles {
+                    // inode numbers are the host's, nothing pins the host inode: the host recycled the number of an
+                    // unlinked file the client still references. One signature for this event; the model of this
+                    // number is void from here on.
+                    self.recycled = true;
+                    self.problems.clear();
+                    self.problems.push((
+                        "host-inode-number-recycled-while-referenced@use_host_ino+file_handles".to_string(),
+                        format!("inode {:#x} denotes {} (still referenced) and is now also returned for the new object {:?}", e.nodeid, s, path),
+                    ));
+                    return;
+                }
+                self.bad(&format!("{}/one-number-for-two-files", what), format!("inode {:#x} denotes {} and is now also returned for {:?}", e.nodeid, s, path));
+            }
+        }
+        let ent = self.nodes.entry(e.nodeid).or_insert(NodeInfo { count: 0, ident: ident.clone(), host_ino, seen_as: path.to_string_lossy().to_string() });
+        if ent.count == 0 {
+            ent.ident = ident;
+            ent.host_ino = host_ino;
+            ent.seen_as = path.to_string_lossy().to_string();
+        }
+        ent.count = ent.count.saturating_add(1);
+        if !self.order.contains(&e.nodeid) {
+            self.order.push(e.nodeid);
+        }
+    }
+
+    fn forget_model(&mut self, node: u64, n: u64) {
+        if node == 1 {
+            return;
+        }
+        if let Some(i) = self.nodes.get_mut(&node) {
+            i.count = i.count.saturating_sub(n);
+        }
+    }
+
+    pub fn dir_node(&mut self, cl: &mut Client, d: D) -> Option<u64> {
+        match d {
+            D::Root => Some(1),
+            D::Dd | D::Pub => {
+                let name = if d == D::Dd { "d" } else { "pub" };
+                let p = self.w.exp.join(name);
+                match cl.lookup(&self.w.subj, 1, name.as_bytes()) {
+                    Ok(e) => {
+                        self.delivered("lookup", &e, &p);
+                        Some(e.nodeid)
+                    }
+                    Err(_) => None,
+                }
+            }
+        }
+    }
+
+    pub fn step(&mut self, cl: &mut Client, op: ROp) -> bool {
+        cl.creds(0, 0);
+        match op {
+            ROp::Lookup(d, n) => {
+                let Some(p) = self.dir_node(cl, d) else { return false };
+                let path = self.exp_path(d, n);
+                if let Ok(e) = cl.lookup(&self.w.subj, p, NAMES[n].as_bytes()) {
+                    self.delivered("lookup", &e, &path);
+                }
+            }
+            ROp::Create(n) => {
+                let path = self.exp_path(D::Root, n);
+                if let Ok((e, fh, _)) = cl.create(&self.w.subj, 1, NAMES[n].as_bytes(), libc::O_RDWR as u32, 0o644, 0o022) {
+                    self.delivered("create", &e, &path);
+                    if !self.w.zero_message_open() {
+                        let _ = cl.release(&self.w.subj, e.nodeid, fh, 0, false);
+                    }
+                }
+            }
+            ROp::Mkdir(n) | ROp::Mknod(n) | ROp::Symlink(n) => {
+                let path = self.exp_path(D::Root, n);
+                let r = match op {
+                    ROp::Mkdir(_) => cl.mkdir(&self.w.subj, 1, NAMES[n].as_bytes(), 0o755, 0o022),
+                    ROp::Mknod(_) => cl.mknod(&self.w.subj, 1, NAMES[n].as_bytes(), libc::S_IFREG | 0o644, 0, 0o022),
+                    _ => cl.symlink(&self.w.subj, 1, NAMES[n].as_bytes(), b"a"),
+                };
+                if let Ok(e) = r {
+                    self.delivered("create-op", &e, &path);
+                }
+            }
+            ROp::Link(src, dst) => {
+                let sp = self.exp_path(D::Root, src);
+                let node = match cl.lookup(&self.w.subj, 1, NAMES[src].as_bytes()) {
+                    Ok(e) => {
+                        self.delivered("lookup", &e, &sp);
+                        e.nodeid
+                    }
+                    Err(_) => return false,
+                };
+                let path = self.exp_path(D::Root, dst);
+                if let Ok(e) = cl.link(&self.w.subj, node, 1, NAMES[dst].as_bytes()) {
+                    self.delivered("link", &e, &path);
+                }
+            }
+            ROp::ReaddirPlus(_) | ROp::Readdir => {
+                let plus = matches!(op, ROp::ReaddirPlus(_));
+                let size = match op {
+                    ROp::ReaddirPlus(0) => 8192u32,
+                    ROp::ReaddirPlus(1) => 2 * 160,
+                    ROp::ReaddirPlus(_) => 160 + 159,
+                    _ => 4096,
+                };
+
+                let (fh, opened) = if self.w.zero_message_opendir() {
+                    (0, false)
+                } else {
+                    match cl.opendir(&self.w.subj, 1, 0) {
+                        Ok((fh, _)) => (fh, true),
+                        Err(_) => return false,
+                    }
+                };
+                if let Ok(ents) = cl.readdir(&self.w.subj, 1, fh, 0, size, plus) {
+                    for d in &ents {
+                        if let Some(eb) = &d.entry {
+                            let e = crate::client::parse_entry(eb);
+                            let name = String::from_utf8_lossy(&d.name).to_string();
+                            let path = self.w.exp.join(&name);
+                            // the kernel takes a reference for every readdirplus entry with a non-zero nodeid (except . and ..)
+                            self.delivered("readdirplus", &e, &path);
+                        }
+                    }
+                }
+                if opened {
+                    let _ = cl.release(&self.w.subj, 1, fh, 0, true);
+                }
+            }
+            ROp::Forget(slot, kind) => {
+                let Some(&node) = self.order.get(slot) else { return false };
+                let cnt = self.nodes.get(&node).map(|i| i.count).unwrap_or(0);
+                let n = match kind {
+                    0 => 1,
+                    1 => cnt.max(1),
+                    2 => cnt + 1,
+                    _ => u64::MAX,
+                };
+                cl.forget(&self.w.subj, node, n);
+                self.forget_model(node, n);
+            }
+            ROp::BatchForget => {
+                let items: Vec<(u64, u64)> = self.order.iter().take(3).map(|n| (*n, 1)).chain(std::iter::once((1u64, 5u64))).collect();
+                if items.len() <= 1 {
+                    return false;
+                }
+                cl.batch_forget(&self.w.subj, &items);
+                for (n, c) in items {
+                    self.forget_model(n, c);
+                }
+            }
+            ROp::Rename(a, b) => {
+                cl.rename(&self.w.subj, 1, NAMES[a].as_bytes(), 1, NAMES[b].as_bytes(), 0);
+            }
+            ROp::Unlink(n) => {
+                cl.unlink(&self.w.subj, 1, NAMES[n].as_bytes());
+            }
+            ROp::Rmdir(n) => {
+                cl.rmdir(&self.w.subj, 1, NAMES[n].as_bytes());
+            }
+            ROp::Getattr(slot) => {
+                let Some(&node) = self.order.get(slot) else { return false };
+                let _ = cl.getattr(&self.w.subj, node, None);
+            }
+        }
+        true
+    }
+
+    /// Invariants after every step.
+    pub fn check(&mut self, cl: &mut Client, what: &str) {
+        let vfs = self.w.cfg.behind_vfs;
+        let handles_mode = self.w.cfg.inode_file_handles;
+        let nodes: Vec<(u64, NodeInfo)> = self.nodes.iter().map(|(k, v)| (*k, v.clone())).collect();
+        let mut live = 0usize;
+        for (node, info) in &nodes {
+            let r = cl.getattr(&self.w.subj, *node, None);
+            if info.count == 0 {
+                match r {
+                    Err(e) if e == libc::EBADF || (vfs && e == libc::ENOENT) => {}
+                    other => self.bad(&format!("{}/forgotten-inode-still-resolves", what), format!("inode {:#x} ({}) has no client references left, GETATTR answers {:?}", node, info.seen_as, other.map(|a| a.ino))),
+                }
+            } else {
+                live += 1;
+                match r {
+                    Ok(a) => {
+                        if !vfs && a.ino != info.host_ino {
+                            self.bad(&format!("{}/inode-denotes-other-file", what), format!("inode {:#x} was given out for host inode {} ({}), GETATTR reports host inode {}", node, info.host_ino, info.seen_as, a.ino));
+                        }
+                    }
+                    // with file handles an unlinked file may stop resolving (the property allows it)
+                    Err(_) if handles_mode && !self.still_linked(&info.ident) => {}
+                    Err(e) => self.bad(&format!("{}/referenced-inode-unusable", what), format!("inode {:#x} ({}) is referenced {} times by the client, GETATTR fails with errno {}", node, info.seen_as, info.count, e)),
+                }
+            }
+            // the server's own count (hook H2) equals the client's
+            let rc = self.w.refcount(*node);
+            let want = if info.count == 0 { None } else { Some(info.count) };
+            if rc != want {
+                self.bad(&format!("{}/refcount", what), format!("inode {:#x} ({}): server holds {:?} references, the client was given {:?}", node, info.seen_as, rc, want));
+            }
+        }
+        // the root can never be forgotten
+        if cl.getattr(&self.w.subj, 1, None).is_err() {
+            self.bad(&format!("{}/root-forgotten", what), "GETATTR on the root fails".into());
+        }
+        let t = self.w.table_sizes();
+        if t.0 != self.base_tables.0 + live {
+            self.bad(&format!("{}/inode-table-size", what), format!("{} live inode objects, the client references {} (+{} at start)", t.0, live, self.base_tables.0));
+        }
+    }
+}
+
+fn rop_kind(op: &ROp) -> String {
+    let s = format!("{:?}", op);
+    s.split('(').next().unwrap_or(&s).to_string()
+}
+
+impl<'a> SeqRun<'a> {
+    fn c08_seq(&mut self, cfg: &PtCfg, seq: &[ROp]) -> bool {
+        let mut rw = RefWorld::new(cfg, &mut self.cl);
+        let n0 = self.cl.nreq;
+        for op in seq {
+            if !rw.step(&mut self.cl, *op) {
+                return true;
+            }
+            if rw.recycled || !rw.problems.is_empty() {
+                break;
+            }
+            let k = rop_kind(op);
+            rw.check(&mut self.cl, &k);
+            if !rw.problems.is_empty() {
+                break;
+            }
+        }
+        self.rep.eval();
+        self.rep.transitions += self.cl.nreq - n0;
+        let last = rop_kind(seq.last().unwrap());
+        self.rep.outcome(&format!("{}:{}", last, if rw.problems.is_empty() { "consistent" } else { "VIOLATION" }));
+        let st: Vec<(u64, u64)> = rw.nodes.iter().map(|(k, v)| (*k, v.count)).collect();
+        self.rep.state_of(&(cfg.label(), st));
+        self.rep.sample(|| json!({"config": cfg.label(), "sequence": format!("{:?}", seq), "client_counts": format!("{:?}", rw.nodes.iter().map(|(k, v)| (*k, v.count)).collect::<Vec<_>>())}));
+        let cut = !rw.problems.is_empty();
+        let mut seen = BTreeSet::new();
+        for (class, msg) in &rw.problems {
+            if !seen.insert(class.clone()) {
+                continue;
+            }
+            let seqs = format!("{:?}", seq);
+            let cfgl = cfg.label();
+            self.rep.violation(&format!("{}/{}", self.prop, class), msg, || json!({"engine": "ptfs-c08", "config": cfgl, "sequence": seqs}));
+        }
+        cut
+    }
+
+    fn c08_rec(&mut self, cfg: &PtCfg, seq: &mut Vec<ROp>, alphabet: &[ROp], depth: usize) {
+        let cut = self.c08_seq(cfg, seq);
+        if cut || seq.len() >= depth || self.rep.over_budget() {
+            return;
+        }
+        for op in alphabet {
+            seq.push(*op);
+            self.c08_rec(cfg, seq, alphabet, depth);
+            seq.pop();
+        }
+    }
+}
+
+pub fn c08(args: &Args) -> Report {
+    let mut rep = args.report();
+    let thorough = args.thorough();
+    let b = PtCfg::base();
+    let mut cfgs: Vec<PtCfg> = Vec::new();
+    for fh in [false, true] {
+        for hi in [false, true] {
+            cfgs.push(PtCfg { inode_file_handles: fh, use_host_ino: hi, ..b.clone() });
+        }
+    }
+    cfgs.push(PtCfg { behind_vfs: true, ..b.clone() });
+    cfgs.push(PtCfg { no_opendir: true, no_open: true, cache: 1, inode_file_handles: true, ..b.clone() });
+    let ext4: Vec<PtCfg> = vec![PtCfg { ext4: true, inode_file_handles: true, ..b.clone() }, PtCfg { ext4: true, ..b.clone() }, PtCfg { ext4: true, inode_file_handles: true, use_host_ino: true, ..b.clone() }];
+    let depth = if thorough { 4 } else { 3 };
+    let alphabet = c08_alphabet(thorough);
+    let mut idx = 0u64;
+    let mut run = SeqRun { rep: &mut rep, cl: Client::new(), prop: "C08" };
+    run.cl.cap = 1 << 17;
+    for cfg in &cfgs {
+        for a in &alphabet {
+            for b2 in &alphabet {
+                if run.rep.mine(idx) {
+                    if b2 == &alphabet[0] {
+                        run.c08_seq(cfg, &[*a]);
+                    }
+                    let mut seq = vec![*a, *b2];
+                    run.c08_rec(cfg, &mut seq, &alphabet, depth);
+                }
+                idx += 1;
+            }
+        }
+    }
+    // ext4 (inode numbers are recycled at once): depth 2 plus targeted histories
+    let targeted: Vec<Vec<ROp>> = vec![
+        vec![ROp::Mknod(1), ROp::Unlink(1), ROp::Mknod(1), ROp::Lookup(D::Root, 1), ROp::Forget(0, 1), ROp::Lookup(D::Root, 1)],
+        vec![ROp::Lookup(D::Root, 0), ROp::Unlink(0), ROp::Mknod(0), ROp::Lookup(D::Root, 0), ROp::Forget(0, 3), ROp::Forget(1, 3)],
+        vec![ROp::Create(1), ROp::Unlink(1), ROp::Mkdir(1), ROp::Rmdir(1), ROp::Symlink(1), ROp::Lookup(D::Root, 1)],
+        vec![ROp::Lookup(D::Root, 0), ROp::Link(0, 1), ROp::Unlink(0), ROp::Lookup(D::Root, 1), ROp::Forget(0, 1), ROp::Forget(0, 1), ROp::Forget(0, 1)],
+        vec![ROp::ReaddirPlus(1), ROp::ReaddirPlus(2), ROp::ReaddirPlus(0), ROp::BatchForget, ROp::BatchForget, ROp::Forget(0, 3), ROp::ReaddirPlus(1)],
+        vec![ROp::Lookup(D::Root, 5), ROp::Lookup(D::Dd, 0), ROp::Unlink(5), ROp::Forget(0, 0), ROp::Lookup(D::Dd, 0), ROp::Forget(0, 3)],
+    ];
+    for cfg in ext4.iter().chain(cfgs.iter()) {
+        for t in &targeted {
+            for _round in 0..3 {
+                if run.rep.mine(idx) {
+                    for n in 1..=t.len() {
+                        if run.c08_seq(cfg, &t[..n]) {
+                            break;
+                        }
+                    }
+                }
+                idx += 1;
+            }
+        }
+    }
+    for cfg in &ext4 {
+        for a in &alphabet {
+            if run.rep.mine(idx) {
+                let mut seq = vec![*a];
+                run.c08_rec(cfg, &mut seq, &alphabet, 2);
+            }
+            idx += 1;
+        }
+    }
+    rep.set("units_all_shards", json!(idx));
+    rep.set("depth", json!(depth));
+    rep.set("configurations", json!(cfgs.iter().chain(ext4.iter()).map(|c| c.label()).collect::<Vec<_>>()));
+    rep
+}
+
+// ------------------------------------------------------------------------------------------------
+// C15: handles and descriptors are released when the client releases them
+
+#[derive(Clone, Copy, Debug, PartialEq, Eq, Hash)]
+pub enum HOp {
+    Lookup(usize),
+    Open(usize, usize),
+    Opendir(D),
+    Create(usize),
+    ReleaseLast,
+    /// release the last handle naming another inode: must be refused and leave the handle usable
+    ReleaseWrongInode,
+    /// release the last handle with the other release opcode (RELEASE for a directory handle, RELEASEDIR for a file handle)
+    ReleaseOtherOpcode,
+    Read,
+    Write,
+    /// a write far beyond the end of the file (refused on a size-sealed export)
+    WriteFar,
+    Readdir(u32),
+    ReaddirPlus(u32),
+    Forget(usize),
+    Destroy,
+    Init,
+}
+
+pub fn c15_alphabet() -> Vec<HOp> {
+    vec![
+        HOp::Lookup(0), HOp::Lookup(4),
+        HOp::Open(0, 0), HOp::Open(0, 2), HOp::Open(2, 0), HOp::Open(3, 0), HOp::Open(5, 1),
+        HOp::Opendir(D::Root), HOp::Opendir(D::Dd),
+        HOp::Create(1), HOp::Create(0), HOp::Create(4), HOp::Create(2), HOp::Create(3),
+        HOp::ReleaseLast, HOp::ReleaseWrongInode, HOp::ReleaseOtherOpcode,
+        HOp::Read, HOp::Write, HOp::WriteFar, HOp::Readdir(4096), HOp::Readdir(80), HOp::ReaddirPlus(4096), HOp::ReaddirPlus(320),
+        HOp::Forget(0), HOp::Forget(1), HOp::Destroy, HOp::Init,
+    ]
+}
+
+#[derive(Clone, Debug)]
+struct LiveH {
+    fh: u64,
+    node: u64,
+    dir: bool,
+    flags: i32,
+}
+
+pub struct HWorld {
+    pub rw: RefWorld,
+    live: Vec<LiveH>,
+    dead: Vec<LiveH>,
+    /// (step, n): fail the n-th descriptor allocation of that step's main request
+    pub inject_at: Option<(usize, u64)>,
+    pub step_idx: usize,
+    pub main_allocs: Vec<u64>,
+    pub injected: bool,
+}
+
+impl HWorld {
+    pub fn new(cfg: &PtCfg, cl: &mut Client) -> HWorld {
+        HWorld { rw: RefWorld::new(cfg, cl), live: Vec::new(), dead: Vec::new(), inject_at: None, step_idx: 0, main_allocs: Vec::new(), injected: false }
+    }
+
+    fn arm(&mut self, cl: &mut Client) {
+        if let Some((s, n)) = self.inject_at {
+            if s == self.step_idx {
+                cl.inject = Some(n);
+                self.injected = true;
+            }
+        }
+    }
+
+    fn name_node(&mut self, cl: &mut Client, n: usize) -> Option<u64> {
+        let p = self.rw.w.exp.join(NAMES[n]);
+        match cl.lookup(&self.rw.w.subj, 1, NAMES[n].as_bytes()) {
+            Ok(e) => {
+                self.rw.delivered("lookup", &e, &p);
+                Some(e.nodeid)
+            }
+            Err(_) => None,
+        }
+    }
+
+    pub fn step(&mut self, cl: &mut Client, op: HOp) -> bool {
+        cl.creds(0, 0);
+        let zo = self.rw.w.zero_message_open();
+        let zd = self.rw.w.zero_message_opendir();
+        let mut allocs = 0u64;
+        match op {
+            HOp::Lookup(n) => {
+                let p = self.rw.w.exp.join(NAMES[n]);
+                self.arm(cl);
+                let r = cl.lookup(&self.rw.w.subj, 1, NAMES[n].as_bytes());
+                allocs = cl.last_allocs;
+                if let Ok(e) = r {
+                    self.rw.delivered("lookup", &e, &p);
+                }
+            }
+            HOp::Open(n, f) => {
+                let Some(node) = self.name_node(cl, n) else { return false };
+                let flags = OPEN_FLAGS[f];
+                self.arm(cl);
+                let r = cl.open(&self.rw.w.subj, node, flags as u32);
+                allocs = cl.last_allocs;
+                match r {
+                    Ok((fh, _)) => {
+                        if self.live.iter().any(|h| h.fh == fh) {
+                            self.rw.problems.push(("handle-number-reused".into(), format!("OPEN returned handle {} which is still open", fh)));
+                        }
+                        self.live.push(LiveH { fh, node, dir: false, flags });
+                    }
+                    Err(_) => {}
+                }
+            }
+            HOp::Opendir(d) => {
+                let Some(node) = self.rw.dir_node(cl, d) else { return false };
+                self.arm(cl);
+                let r = cl.opendir(&self.rw.w.subj, node, 0);
+                allocs = cl.last_allocs;
+                if let Ok((fh, _)) = r {
+                    if self.live.iter().any(|h| h.fh == fh) {
+                        self.rw.problems.push(("handle-number-reused".into(), format!("OPENDIR returned handle {} which is still open", fh)));
+                    }
+                    self.live.push(LiveH { fh, node, dir: true, flags: 0 });
+                }
+            }
+            HOp::Create(n) => {
+                let p = self.rw.w.exp.join(NAMES[n]);
+                self.arm(cl);
+                let r = cl.create(&self.rw.w.subj, 1, NAMES[n].as_bytes(), libc::O_RDWR as u32, 0o644, 0o022);
+                allocs = cl.last_allocs;
+                if let Ok((e, fh, _)) = r {
+                    self.rw.delivered("create", &e, &p);
+                    if !zo {
+                        if self.live.iter().any(|h| h.fh == fh) {
+                            self.rw.problems.push(("handle-number-reused".into(), format!("CREATE returned handle {} which is still open", fh)));
+                        }
+                        self.live.push(LiveH { fh, node: e.nodeid, dir: false, flags: libc::O_RDWR });
+                    }
+                }
+            }
+            HOp::ReleaseLast | HOp::ReleaseOtherOpcode => {
+                let Some(h) = self.live.pop() else { return false };
+                let swap = matches!(op, HOp::ReleaseOtherOpcode);
+                self.arm(cl);
+                let e = cl.release(&self.rw.w.subj, h.node, h.fh, h.flags as u32, h.dir != swap);
+                allocs = cl.last_allocs;
+                if e != 0 && !(swap) {
+                    self.rw.problems.push(("release-refused".into(), format!("release of the open handle {} on inode {:#x} failed with errno {}", h.fh, h.node, e)));
+                }
+                if e == 0 {
+                    self.dead.push(h);
+                } else {
+                    self.live.push(h);
+                }
+            }
+            HOp::ReleaseWrongInode => {
+                let Some(h) = self.live.last().cloned() else { return false };
+                let other = if h.node == 1 { 0x7777 } else { 1 };
+                self.arm(cl);
+                let e = cl.release(&self.rw.w.subj, other, h.fh, h.flags as u32, h.dir);
+                allocs = cl.last_allocs;
+                if e == 0 {
+                    self.rw.problems.push(("release-with-wrong-inode-accepted".into(), format!("handle {} of inode {:#x} released through inode {:#x}", h.fh, h.node, other)));
+                }
+            }
+            HOp::Read | HOp::Write | HOp::WriteFar => {
+                let Some(h) = self.live.iter().rev().find(|h| !h.dir).cloned() else { return false };
+                self.arm(cl);
+                if matches!(op, HOp::Read) {
+                    let _ = cl.read(&self.rw.w.subj, h.node, h.fh, 0, 16, h.flags as u32);
+                } else {
+                    let off = if matches!(op, HOp::WriteFar) { 1 << 20 } else { 0 };
+                    let _ = cl.write(&self.rw.w.subj, h.node, h.fh, off, b"zz", h.flags as u32, 0);
+                }
+                allocs = cl.last_allocs;
+            }
+            HOp::Readdir(size) | HOp::ReaddirPlus(size) => {
+                let plus = matches!(op, HOp::ReaddirPlus(_));
+                let h = match self.live.iter().rev().find(|h| h.dir).cloned() {
+                    Some(h) => h,
+                    None if zd => LiveH { fh: 0, node: 1, dir: true, flags: 0 },
+                    None => return false,
+                };
+                self.arm(cl);
+                let r = cl.readdir(&self.rw.w.subj, h.node, h.fh, 0, size, plus);
+                allocs = cl.last_allocs;
+                if let Ok(ents) = r {
+                    let dirpath = if h.node == 1 { self.rw.w.exp.clone() } else { self.rw.w.exp.join("d") };
+                    for d in &ents {
+                        if let Some(eb) = &d.entry {
+                            let e = crate::client::parse_entry(eb);
+                            let path = dirpath.join(String::from_utf8_lossy(&d.name).to_string());
+                            self.rw.delivered("readdirplus", &e, &path);
+                        }
+                    }
+                }
+            }
+            HOp::Forget(slot) => {
+                let Some(&node) = self.rw.order.get(slot) else { return false };
+                let cnt = self.rw.nodes.get(&node).map(|i| i.count).unwrap_or(0);
+                if cnt == 0 {
+                    return false;
+                }
+                cl.forget(&self.rw.w.subj, node, cnt);
+                if let Some(i) = self.rw.nodes.get_mut(&node) {
+                    i.count = 0;
+                }
+            }
+            HOp::Destroy => {
+                self.arm(cl);
+                let _ = cl.destroy(&self.rw.w.subj);
+                allocs = cl.last_allocs;
+                // the session is over: every handle and every inode number is void (numbers start afresh)
+                self.dead.append(&mut self.live);
+                self.rw.nodes.clear();
+                self.rw.order.clear();
+                if self.rw.w.cfg.behind_vfs {
+                    // the Vfs must be initialised again before it serves requests
+                    let _ = cl.init(&self.rw.w.subj, crate::ptworld::CAPABLE_ALL);
+                }
+            }
+            HOp::Init => {
+                if self.rw.w.cfg.behind_vfs {
+                    return false; // a second INIT is refused by the Vfs (C12)
+                }
+                self.arm(cl);
+                let _ = cl.init(&self.rw.w.subj, crate::ptworld::CAPABLE_ALL);
+                allocs = cl.last_allocs;
+            }
+        }
+        self.main_allocs.push(allocs);
+        self.step_idx += 1;
+        true
+    }
+
+    /// usable only with its inode and only until released
+    pub fn check_handles(&mut self, cl: &mut Client) {
+        let live = self.live.clone();
+        for h in &live {
+            let e = cl.fsync(&self.rw.w.subj, h.node, h.fh, false, h.dir);
+            if e != 0 {
+                self.rw.problems.push(("open-handle-unusable".into(), format!("handle {} on inode {:#x} is open, FSYNC{} fails with errno {}", h.fh, h.node, if h.dir { "DIR" } else { "" }, e)));
+            }
+            let other = if h.node == 1 { *self.rw.order.first().unwrap_or(&0x7777) } else { 1 };
+            let e = cl.fsync(&self.rw.w.subj, other, h.fh, false, h.dir);
+            if e == 0 {
+                self.rw.problems.push(("handle-usable-with-other-inode".into(), format!("handle {} of inode {:#x} accepted with inode {:#x}", h.fh, h.node, other)));
+            }
+        }
+        let dead = self.dead.clone();
+        for h in dead.iter().rev().take(3) {
+            if live.iter().any(|l| l.fh == h.fh) {
+                continue;
+            }
+            let e = cl.fsync(&self.rw.w.subj, h.node, h.fh, false, h.dir);
+            if e == 0 {
+                self.rw.problems.push(("released-handle-usable".into(), format!("handle {} on inode {:#x} was released and is still accepted", h.fh, h.node)));
+            }
+        }
+    }
+
+    /// The client lets go of everything; the server must be back to its start state.
+    pub fn finish(&mut self, cl: &mut Client) {
+        while let Some(h) = self.live.pop() {
+            let _ = cl.release(&self.rw.w.subj, h.node, h.fh, h.flags as u32, h.dir);
+        }
+        let nodes: Vec<(u64, u64)> = self.rw.nodes.iter().map(|(k, v)| (*k, v.count)).collect();
+        for (n, c) in nodes {
+            if c > 0 {
+                cl.forget(&self.rw.w.subj, n, c);
+            }
+        }
+        let t = self.rw.w.table_sizes();
+        let b = self.rw.base_tables;
+        // "no more than a freshly started server": fewer (e.g. the root could not be re-imported after an injected
+        // failure during DESTROY) is not a leak
+        if t.0 > b.0 {
+            self.rw.problems.push(("leak/inode-objects".into(), format!("{} live inode objects after everything was forgotten, {} at start", t.0, b.0)));
+        }
+        if t.1 > b.1 {
+            self.rw.problems.push(("leak/handles".into(), format!("{} handles after everything was released, {} at start", t.1, b.1)));
+        }
+        if t.2 > b.2 {
+            self.rw.problems.push(("leak/directory-position-records".into(), format!("{} directory-position records after everything was released, {} at start", t.2, b.2)));
+        }
+        let f = fd_count();
+        if f > self.rw.base_fds {
+            self.rw.problems.push(("leak/file-descriptors".into(), format!("{} open descriptors after everything was released, {} at start", f, self.rw.base_fds)));
+        }
+    }
+}
+
+fn hop_kind(op: &HOp) -> String {
+    let s = format!("{:?}", op);
+    s.split('(').next().unwrap_or(&s).to_string()
+}
+
+impl<'a> SeqRun<'a> {
+    /// returns (cut, per-step descriptor allocations of the main requests)
+    fn c15_seq(&mut self, cfg: &PtCfg, seq: &[HOp], inject: Option<(usize, u64)>) -> (bool, Vec<u64>) {
+        let mut hw = HWorld::new(cfg, &mut self.cl);
+        hw.inject_at = inject;
+        let n0 = self.cl.nreq;
+        for op in seq {
+            if !hw.step(&mut self.cl, *op) {
+                return (true, vec![]);
+            }
+            if !hw.rw.recycled && hw.rw.problems.is_empty() {
+                hw.check_handles(&mut self.cl);
+            }
+            if !hw.rw.problems.is_empty() {
+                break;
+            }
+        }
+        if hw.rw.problems.is_empty() {
+            hw.finish(&mut self.cl);
+        }
+        self.rep.eval();
+        self.rep.transitions += self.cl.nreq - n0;
+        let last = hop_kind(seq.last().unwrap());
+        self.rep.outcome(&format!("{}:{}:{}", last, if inject.is_some() { "emfile" } else { "plain" }, if hw.rw.problems.is_empty() { "clean" } else { "VIOLATION" }));
+        self.rep.state_of(&(cfg.label(), format!("{:?}", seq), inject));
+        self.rep.sample(|| json!({"config": cfg.label(), "sequence": format!("{:?}", seq), "emfile_at": format!("{:?}", inject), "descriptor_allocations_per_step": hw.main_allocs}));
+        let cut = !hw.rw.problems.is_empty();
+        let mut seen = BTreeSet::new();
+        for (class, msg) in &hw.rw.problems {
+            if !seen.insert(class.clone()) {
+                continue;
+            }
+            let seqs = format!("{:?}", seq);
+            let cfgl = cfg.label();
+            let tag = if inject.is_some() { "@descriptor-allocation-failed" } else { "" };
+            let cls = if class.starts_with("leak/") || class.starts_with("descriptor-closed") { format!("{}/after-{}{}", class, last, tag) } else { format!("{}{}", class, tag) };
+            self.rep.violation(&format!("{}/{}", self.prop, cls), msg, || json!({"engine": "ptfs-c15", "config": cfgl, "sequence": seqs, "emfile_at": format!("{:?}", inject)}));
+        }
+        (cut, hw.main_allocs.clone())
+    }
+
+    fn c15_rec(&mut self, cfg: &PtCfg, seq: &mut Vec<HOp>, alphabet: &[HOp], depth: usize, faults: bool) {
+        let (cut, allocs) = self.c15_seq(cfg, seq, None);
+        if faults && !cut {
+            // DEV(1) on the environment: every descriptor allocation of the last step fails once
+            let last = seq.len() - 1;
+            if let Some(&a) = allocs.get(last) {
+                for n in 1..=a {
+                    self.c15_seq(cfg, seq, Some((last, n)));
+                }
+            }
+        }
+        if cut || seq.len() >= depth || self.rep.over_budget() {
+            return;
+        }
+        for op in alphabet {
+            seq.push(*op);
+            self.c15_rec(cfg, seq, alphabet, depth, faults);
+            seq.pop();
+        }
+    }
+}
+
+pub fn c15(args: &Args) -> Report {
+    let mut rep = args.report();
+    if !crate::fault::INTERPOSED.load(std::sync::atomic::Ordering::SeqCst) {
+        eprintln!("libc interposers not linked in");
+        std::process::exit(2);
+    }
+    let thorough = args.thorough();
+    let b = PtCfg::base();
+    let mut cfgs: Vec<PtCfg> = Vec::new();
+    for bits in 0..8u32 {
+        cfgs.push(PtCfg { no_open: bits & 1 != 0, no_opendir: bits & 2 != 0, inode_file_handles: bits & 4 != 0, cache: 1, ..b.clone() });
+    }
+    cfgs.push(PtCfg { behind_vfs: true, ..b.clone() });
+    cfgs.push(PtCfg { behind_vfs: true, inode_file_handles: true, no_opendir: true, ..b.clone() });
+    cfgs.push(PtCfg { seal_size: true, ..b.clone() });
+    cfgs.push(PtCfg { seal_size: true, no_open: true, cache: 1, ..b.clone() });
+    let depth = if thorough { 3 } else { 2 };
+    let alphabet = c15_alphabet();
+    let mut idx = 0u64;
+    let mut run = SeqRun { rep: &mut rep, cl: Client::new(), prop: "C15" };
+    run.cl.cap = 1 << 17;
+    for cfg in &cfgs {
+        for a in &alphabet {
+            if run.rep.mine(idx) {
+                let mut seq = vec![*a];
+                run.c15_rec(cfg, &mut seq, &alphabet, depth, true);
+            }
+            idx += 1;
+        }
+    }
+    // targeted longer histories
+    let targeted: Vec<Vec<HOp>> = vec![
+        vec![HOp::Opendir(D::Root), HOp::Readdir(80), HOp::Readdir(4096), HOp::ReleaseOtherOpcode, HOp::Opendir(D::Root), HOp::ReaddirPlus(320), HOp::ReleaseLast],
+        vec![HOp::Open(0, 2), HOp::ReleaseWrongInode, HOp::Read, HOp::Write, HOp::ReleaseLast, HOp::Read],
+        vec![HOp::Open(0, 2), HOp::WriteFar, HOp::Read, HOp::WriteFar, HOp::Write, HOp::Open(5, 2), HOp::Read, HOp::ReleaseLast, HOp::ReleaseLast],
+        vec![HOp::Destroy, HOp::Destroy, HOp::Destroy, HOp::Lookup(0), HOp::Open(0, 0), HOp::Destroy, HOp::Init, HOp::Lookup(0)],
+        vec![HOp::Create(1), HOp::Create(1), HOp::Create(4), HOp::Create(2), HOp::Create(3), HOp::ReleaseLast, HOp::ReleaseLast],
+        vec![HOp::ReaddirPlus(320), HOp::ReaddirPlus(320), HOp::Forget(0), HOp::Forget(1), HOp::Opendir(D::Dd), HOp::ReaddirPlus(4096), HOp::ReleaseLast],
+    ];
+    for cfg in &cfgs {
+        for t in &targeted {
+            if run.rep.mine(idx) {
+                for n in 1..=t.len() {
+                    if run.c15_seq(cfg, &t[..n], None).0 {
+                        break;
+                    }
+                }
+            }
+            idx += 1;
+        }
+    }
+    rep.set("units_all_shards", json!(idx));
+    rep.set("depth", json!(depth));
+    rep.set("sum_emfile_injections", json!(crate::fault::INJECTED.load(std::sync::atomic::Ordering::SeqCst)));
+    rep.set("configurations", json!(cfgs.iter().map(|c| c.label()).collect::<Vec<_>>()));
+    rep
+}
